@@ -12,6 +12,10 @@ import (
 // observable independently of the garbage collector (an unreachable net.Conn is closed by its
 // finalizer sooner or later, which hides the leak from a descriptor census).
 type DialTracker struct {
+	// SendBuf, when > 0, is the kernel send buffer size requested for every dialed connection (a
+	// peer that stops reading then blocks the client's writer after some kilobytes)
+	SendBuf int
+
 	mu    sync.Mutex
 	conns []*trackedConn
 }
@@ -32,6 +36,9 @@ func (t *DialTracker) DialContext(ctx context.Context, network, address string) 
 	nc, err := (&net.Dialer{}).DialContext(ctx, network, address)
 	if err != nil {
 		return nil, err
+	}
+	if tcp, ok := nc.(*net.TCPConn); ok && t.SendBuf > 0 {
+		_ = tcp.SetWriteBuffer(t.SendBuf)
 	}
 	tc := &trackedConn{Conn: nc, remote: address}
 	t.mu.Lock()
